@@ -186,6 +186,7 @@ func verifNewPtrWorld(structElem bool) *verifPtrWorld {
 	w.prog = &ssa.Program{Fset: token.NewFileSet()}
 	verifSetUnexported(w.prog, "packages", map[*types.Package]*ssa.Package{w.tpkg: w.pkg})
 	verifSetUnexported(w.prog, "imported", map[string]*ssa.Package{})
+	verifSetUnexported(w.prog, "mode", ssa.BuildSerially) // Program.Build() is a no-op on these packages; keep it sequential
 	w.pkg.Prog = w.prog
 
 	w.intT = types.Typ[types.Int]
@@ -814,4 +815,129 @@ func VerifBuildShareProgram(ts, variants []int, leak, leakAt, access, accessAt i
 func (o *VerifShareWorld) useLoad(w *verifPtrWorld, v ssa.Value) {
 	c := w.alloc(w.P, "sinkcell")
 	w.store(c, v)
+}
+
+// ---------------------------------------------------------------------------------------------------------------
+// Source-to-sink flows through memory shared between goroutines (C13).
+//
+// main obtains x := source() (a *N), optionally moves it through a transport, and stores it into a cell that a
+// reader goroutine (which loads the cell and passes the value to sink) can reach; the cell is shared before or after
+// the store, through one of the share forms. In the schedule where the reader's load happens after main's store the
+// source's data reaches the sink, so the flow is execution-observable by construction.
+
+const (
+	shGoArg = iota // go reader(cell)
+	shGlobal       // GC = cell (a package-level **N) ; go greader()
+	shClosure      // go func(){ sink(*cell) }()
+	shHolder       // h.c = cell ; go hreader(h)
+	shChanOfCell   // ch <- cell ; go creader(ch)
+	shNumShares
+)
+
+type VerifFlowWorld struct {
+	Prog     *ssa.Program
+	Funcs    map[*ssa.Function]bool
+	Main     *ssa.Function
+	Source   *ssa.Call
+	Sink     *ssa.Call
+	SinkFn   *ssa.Function
+	SourceFn *ssa.Function
+}
+
+func VerifBuildFlowProgram(share int, shareFirst bool, t int, variant int) *VerifFlowWorld {
+	w := verifNewPtrWorld(true)
+	out := &VerifFlowWorld{Prog: w.prog, Funcs: w.funcs}
+	PPP := types.NewPointer(w.PP)
+	// func source() *N { return new(N) } ; func sink(p *N) {}
+	src := w.newFn("source", w.sig(nil, []types.Type{w.P}))
+	{
+		sFn, sBlocks, sCur, sCurB := w.fn, w.blocks, w.cur, w.curB
+		w.beginFn(src)
+		a := w.alloc(w.elem, "secret")
+		w.emit(&ssa.Return{Results: []ssa.Value{a}})
+		w.endFn()
+		w.fn, w.blocks, w.cur, w.curB = sFn, sBlocks, sCur, sCurB
+	}
+	sink := w.fnWith("sink", []types.Type{w.P}, func([]ssa.Value) {})
+	out.SourceFn, out.SinkFn = src, sink
+	sinkCall := func(v ssa.Value) {
+		c := w.plainCall(sink, v)
+		out.Sink = c
+	}
+	mainFn := w.newFn("main", w.sig(nil, nil))
+	out.Main = mainFn
+	w.beginFn(mainFn)
+	w.A[1] = w.alloc(w.elem, "other")
+	cell := w.alloc(w.P, "cell")
+	doShare := func() {
+		switch share {
+		case shGoArg:
+			rd := w.fnWith("reader", []types.Type{w.PP}, func(ps []ssa.Value) { sinkCall(w.load(ps[0], w.P)) })
+			w.goCall(rd, cell)
+		case shGlobal:
+			gv := types.NewVar(token.NoPos, w.tpkg, "GC", w.PP)
+			gc := &ssa.Global{Pkg: w.pkg}
+			verifSetUnexported(gc, "name", "GC")
+			verifSetUnexported(gc, "typ", types.Type(PPP))
+			verifSetUnexported(gc, "object", gv)
+			w.pkg.Members["GC"] = gc
+			w.objs[gv] = gc
+			rd := w.fnWith("greader", nil, func([]ssa.Value) { sinkCall(w.load(w.load(gc, w.PP), w.P)) })
+			w.store(gc, cell)
+			w.goCall(rd)
+		case shClosure:
+			f := w.newFn("cloreader", w.sig(nil, nil))
+			fv := &ssa.FreeVar{}
+			verifSetUnexported(fv, "name", "cell")
+			verifSetUnexported(fv, "typ", w.PP)
+			verifSetUnexported(fv, "parent", f)
+			f.FreeVars = []*ssa.FreeVar{fv}
+			sFn, sBlocks, sCur, sCurB := w.fn, w.blocks, w.cur, w.curB
+			w.beginFn(f)
+			sinkCall(w.load(fv, w.P))
+			w.emit(&ssa.Return{})
+			w.endFn()
+			w.fn, w.blocks, w.cur, w.curB = sFn, sBlocks, sCur, sCurB
+			mc := w.val(&ssa.MakeClosure{Fn: f, Bindings: []ssa.Value{cell}}, f.Signature)
+			w.goCall(mc)
+		case shHolder:
+			hT := types.NewStruct([]*types.Var{types.NewField(token.NoPos, w.tpkg, "c", w.PP, false)}, nil)
+			pH := types.NewPointer(hT)
+			rd := w.fnWith("hreader", []types.Type{pH}, func(ps []ssa.Value) {
+				c := w.load(w.val(&ssa.FieldAddr{X: ps[0], Field: 0}, PPP), w.PP)
+				sinkCall(w.load(c, w.P))
+			})
+			h := w.alloc(hT, "holder")
+			w.store(w.val(&ssa.FieldAddr{X: h, Field: 0}, PPP), cell)
+			w.goCall(rd, h)
+		case shChanOfCell:
+			chT := types.NewChan(types.SendRecv, w.PP)
+			rd := w.fnWith("creader", []types.Type{chT}, func(ps []ssa.Value) {
+				c := w.val(&ssa.UnOp{Op: token.ARROW, X: ps[0]}, w.PP)
+				sinkCall(w.load(c, w.P))
+			})
+			ch := w.val(&ssa.MakeChan{Size: w.intConst(1)}, chT)
+			w.emit(&ssa.Send{Chan: ch, X: cell})
+			w.goCall(rd, ch)
+		}
+	}
+	if shareFirst {
+		doShare()
+	}
+	sc := &ssa.Call{}
+	sc.Call.Value = src
+	x := w.val(sc, w.P)
+	out.Source = sc
+	if t >= 0 {
+		x = w.transport(t, x, w.A[1], variant)
+	}
+	w.store(cell, x)
+	if !shareFirst {
+		doShare()
+	}
+	w.emit(&ssa.Return{})
+	w.endFn()
+	verifSetUnexported(w.pkg, "objects", w.objs)
+	verifSetUnexported(w.prog, "runtimeTypes", w.rtyps)
+	return out
 }
